@@ -273,5 +273,51 @@ def run(ctx):
                           {"what": "threaded!=serial"})
         if before != after:
             ctx.violation("threaded assembly modified the basis arrays", inp, {"what": "inputs-modified"})
+    # (d) ONE threaded form object assembled on a sequence of bases whose local sizes differ although the element
+    # classes coincide (p-refinement, wrappers): every assembly equals the serial one of a fresh form
+    import skfem
+    from skfem.element import ElementVector, ElementDG
+    seqs = [("line", [lambda p=p: skfem.ElementLinePp(p) for p in (1, 2, 3, 2, 1)]),
+            ("quad", [lambda p=p: skfem.ElementQuadP(p) for p in (1, 2, 1)]),
+            ("tri", [lambda: ElementVector(skfem.ElementTriP1()), lambda: ElementVector(skfem.ElementTriP2()),
+                     lambda: ElementVector(skfem.ElementTriP1())]),
+            ("tri", [lambda: ElementDG(skfem.ElementTriP2()), lambda: ElementDG(skfem.ElementTriP1()),
+                     lambda: ElementDG(skfem.ElementTriP2())]),
+            ("tet", [lambda: ElementVector(skfem.ElementTetP1()), lambda: ElementVector(skfem.ElementTetP2())])]
+    for kind, facs in seqs:
+        if ctx.time_left(0.99) < 0:
+            break
+        try:
+            m, info = meshes.gen_first_order(ctx.rng, kind)
+            if m.nelements > 8:
+                m = m.restrict(np.arange(8))
+            form = fields.generic_bilinear()
+            for nthr in (1, 2, 3, 7):
+                shared = BilinearForm(form, nthreads=nthr)
+                for step, fac in enumerate(facs):
+                    ub = Basis(m, fac(), intorder=3)
+                    vb = ub
+                    if step % 2 == 1:
+                        vb = Basis(m, facs[0](), intorder=3)      # rectangular in every second step
+                    old = sys.getswitchinterval()
+                    sys.setswitchinterval(1e-6)
+                    try:
+                        A = shared._assemble(ub, vb)
+                    finally:
+                        sys.setswitchinterval(old)
+                    B = BilinearForm(form)._assemble(ub, vb)
+                    ctx.case({"sequence": kind, "step": step, "n": nthr, "Nu": int(ub.Nbfun), "Nv": int(vb.Nbfun)},
+                             nontrivial=True)
+                    ctx.count("shared-form-sequence")
+                    if not (np.array_equal(A[0], B[0]) and A[1].tobytes() == B[1].tobytes() and A[2] == B[2]):
+                        ctx.violation("a threaded form object reused on a basis of another local size differs from "
+                                      "serial assembly",
+                                      {"mesh": meshes.mesh_descr(m), "kind": kind, "step": step, "nthreads": nthr,
+                                       "Nbfun_trial": int(ub.Nbfun), "Nbfun_test": int(vb.Nbfun)},
+                                      {"what": "threaded!=serial", "reuse": True})
+                        break
+        except Exception as ex:
+            ctx.violation("threaded assembly with a reused form object raised " + exc_kind(ex),
+                          {"kind": kind, "err": repr(ex)}, {"what": "raise-real"})
     if ctx.tier == "thorough" and not getattr(ctx, "no_lean", False):
         ctx.leanchecker(["SkfemVerif.Props.C16"])
